@@ -22,6 +22,12 @@ TRUSTED = [
     "independent reference controller (harness/ref/frames.py, pv_client.py) with real ChaCha20-Poly1305",
     "h11 produces each response as head+body+end in one send_response call (library behaviour, exercised)",
     "asyncio run-to-completion of callbacks on one thread; virtual-time loop harness/vloop.py",
+    "write flow control: the model has no pause/resume step because HAPServerProtocol does not override "
+    "pause_writing/resume_writing (writes go to the transport in production order whatever the transport's buffer "
+    "state); tied by scripts in which the fake transport pauses/resumes the protocol as asyncio transports do "
+    "(harness/vloop.py FakeTransport.flow_high/drain) while messages are produced and a write is due in the drain iteration",
+    "the session switch is judged at the END OF THE M4 RESPONSE (reference controller switches keys there), not at "
+    "whatever the accessory had written when the harness looked",
 ]
 IDENT = b"AAAAAAAA-1111-2222-3333-444444444444"
 
@@ -141,9 +147,20 @@ def gen_script(rng, quick):
             ops.append(["sub", [6]])
             ops.append(["snapshot", rng.choice([66000, 70000, 140000] if quick else [66000, 70000, 140000, 300000]), rng.choice([0, 0.25]), rng.choice([2, 5])])
         elif k < 0.985:
+            if rng.random() < 0.5:
+                # an event still queued (coalescing window open) or produced in the same iteration
+                ops.append(["sub", [rng.randrange(6), 6]])
+                ops.append(rng.choice([["appset", rng.randrange(6), 30], ["button"]]))
             ops.append(["reverify"])
         else:
             ops.append(["bad_request"])
+    if rng.random() < 0.12:
+        # the peer stops reading: the transport pauses the protocol, messages are produced meanwhile,
+        # then the socket drains while another write is due in the same loop iteration
+        ops = [["flow", rng.choice([4096, 65536])], ["sub", [0, 6]]] + ops
+        at = rng.randrange(2, len(ops) + 1)
+        ops[at:at] = [["snapshot", rng.choice([70000, 140000]), 0, 0], ["get", [0, 1]], ["appset", 0, 40],
+                      ["drain_then", rng.choice(["button", "get", "timer"])]]
     return ops
 
 
@@ -208,8 +225,9 @@ def run_script(ctx: Ctx, hc, hp, ops, mode, seed):
             msgs = split_all(tr, marks, shared_keys, cipher_cls)[0]
             m2 = [m for m in msgs if m[0] == "response"][-1]
             send(pv_client.http_post("/pair-verify", v.m3(m2[3])), "pv-m4")
-            # everything written so far (including the M4 response) belongs to the old regime
-            marks[len(shared_keys)] = len(tr.data())
+            # a conforming controller switches keys at the END OF THE M4 RESPONSE: the old regime ends there,
+            # whatever the accessory wrote after M4 must already be a frame of the new session
+            marks[len(shared_keys)] = end_of_m4(tr, marks, shared_keys, cipher_cls)
             shared_keys.append(v.shared)
             sess.install(v.shared)
 
@@ -271,6 +289,28 @@ def run_script(ctx: Ctx, hc, hp, ops, mode, seed):
                     rig.loop.hook = None
                 elif k == "reverify":
                     verify()
+                elif k == "button":
+                    chars[6].set_value(rng.randrange(1, 255))
+                elif k == "flow":
+                    tr.flow_high = op[1]
+                elif k == "drain":
+                    tr.drain()
+                elif k == "drain_then":
+                    # the socket drains (the transport calls resume_writing()) and, in the SAME loop iteration,
+                    # another write is due: an immediate event, a request that has just arrived, or the
+                    # coalescing timer coming due -- no loop turn in between
+                    if op[1] == "timer":
+                        chars[0].set_value(text(rng, 20))
+                        rig.loop.hook = lambda _t=tr: _t.drain()  # drain at a loop-iteration boundary while the timer comes due
+                        rig.loop.advance(0.75)
+                        rig.loop.hook = None
+                        tr.drain()
+                    else:
+                        tr.drain()
+                        if op[1] == "button":
+                            chars[6].set_value(rng.randrange(1, 255))
+                        else:
+                            send(f"GET /characteristics?id=1.{iid[0]} HTTP/1.1\r\nHost: a\r\n\r\n".encode(), "characteristics")
                 elif k == "bad_request":
                     # a correctly encrypted request that the HTTP parser rejects
                     bad = rng.choice([
@@ -303,6 +343,36 @@ def run_script(ctx: Ctx, hc, hp, ops, mode, seed):
         for p in patches:
             p.stop()
         rig.close()
+
+
+def end_of_m4(tr, marks, shared_keys, cipher_cls):
+    """Offset (in the accessory->controller byte stream) at which the latest pair-verify response ends,
+    seen under the regime that is in force before the switch."""
+    data = tr.data()
+    start = marks[max(marks)] if marks else 0
+    seg = data[start:]
+    if not shared_keys:
+        frames, plain = None, seg
+    else:
+        cipher = cipher_cls(ref.hkdf(shared_keys[-1], ref.SALT, ref.A2C))
+        frames, _, _ = ref.receive(cipher, seg)
+        plain = b"".join(p for _, p in frames)
+    m, _ = ref.split_messages(plain)
+    off, target = 0, None
+    for x in m:
+        off += x[4]
+        if x[0] == "response" and x[2].get(b"content-type", b"") == b"application/pairing+tlv8":
+            target = off
+    if target is None:
+        return len(data)
+    if frames is None:
+        return start + target
+    cum = 0
+    for e, pl in frames:
+        cum += len(pl)
+        if cum >= target:
+            return start + e
+    return len(data)
 
 
 def split_all(tr, marks, shared_keys, cipher_cls):
@@ -481,7 +551,8 @@ def run(ctx: Ctx):
     st.rule = (
         "scripts over one verified connection of a real HAPServerProtocol+AccessoryDriver on a virtual clock: reads, "
         "writes, subscriptions, application value changes (events), timer advances, delayed snapshot responses, second "
-        "pair-verify (re-key), plus response sizes steered to 1023/1024/1025/2047/2048/2049; real ChaCha (oracle only) or "
+        "pair-verify (re-key, also with events queued / produced in the same iteration), transport write flow control "
+        "(pause, messages produced while paused, drain with a write due in the same iteration), plus response sizes steered to 1023/1024/1025/2047/2048/2049; real ChaCha (oracle only) or "
         "mock AEAD (oracle + model correspondence). Non-trivial = at least one message beyond the pair-verify exchange "
         "written after the upgrade; distinct by op script."
     )
@@ -494,6 +565,18 @@ def run(ctx: Ctx):
     scripts.append(([["reverify"], ["get_acc"], ["reverify"], ["get", [0, 1]]], "mock"))
     scripts.append(([["legacy"], ["get_acc"], ["sub", [0]], ["appset", 0, 20], ["advance", 1.0]], "real"))
     scripts.append(([["legacy"], ["get", [0]], ["reverify"], ["get_acc"]], "mock"))
+    # re-verification while an event is still queued / produced in the same iteration
+    for m in ("mock", "real"):
+        scripts.append(([["sub", [0, 6]], ["appset", 0, 30], ["reverify"], ["advance", 1.0], ["get", [0]]], m))
+        scripts.append(([["sub", [0, 1]], ["advance", 1.0], ["appset", 1, 10], ["appset", 0, 250], ["reverify"], ["get_acc"], ["advance", 1.0]], m))
+        scripts.append(([["sub", [6]], ["button"], ["reverify"], ["button"], ["get", [6]]], m))
+    # write flow control: the peer stops reading, messages are produced while the protocol is paused, the socket
+    # drains while another write is due in the same iteration
+    for then in ("button", "get", "timer"):
+        for high in (4096, 65536):
+            scripts.append(([["flow", high], ["sub", [0, 6]], ["snapshot", 140000, 0, 0], ["get", [0, 1]], ["appset", 0, 40],
+                             ["drain_then", then], ["advance", 1.0], ["get_acc"], ["drain"], ["get", [0]]], "real"))
+    scripts.append(([["flow", 1024], ["sub", [0, 6]], ["get_acc"], ["button"], ["get", [0]], ["drain_then", "button"], ["button"], ["advance", 1.0], ["drain"], ["get", [1]]], "mock"))
     scripts.append(([["get_acc"], ["bad_request"], ["get_acc"]], "real"))
     scripts.append(([["sub", [0]], ["appset", 0, 5], ["bad_request"], ["advance", 1.0]], "mock"))
     scripts.append(([["sub", [6]], ["snapshot", 70000, 0.25, 5], ["get", [0]]], "real"))
